@@ -193,13 +193,17 @@ def main(argv=None):
 
     # 1+2: facts and proofs
     pr = build_proofs(prop, cfg["coq"])
+    t_proofs = time.time() - t0
     proof_broken = not pr["ok"]
 
     # 3+4: correspondence and runtime legs (escalated to thorough if a proof obligation broke)
     run_tier = "thorough" if (proof_broken and not replay) else tier
     outdir = os.path.join(BUILD, "cases", prop)
     timeout = cfg.get("timeout", {}).get(run_tier, 900 if run_tier == "quick" else 5400)
+    t1 = time.time()
     meta, fail = run_child(prop, cfg["module"], run_tier, seed, outdir, timeout, inputs=replay)
+    t_child = time.time() - t1
+    t1 = time.time()
     mism, nontriv, coq_errors = [], 0, []
     failing = []
     if meta is None:
@@ -275,6 +279,7 @@ def main(argv=None):
         "extra_legs": ((meta or {}).get("extra") or {}).get("info", {}),
         "srcfacts": srcfacts.last_facts(),
         "explanation": cfg.get("explanation", ""),
+        "phase_wall_s": {"facts+proofs": round(t_proofs, 1), "implementation_runs": round(t_child, 1), "coq_case_files": round(time.time() - t1, 1)},
     }
     if cfg.get("exhaustive_in", {}).get(run_tier):
         cov["exhaustive"] = True
